@@ -89,7 +89,7 @@ def rank_activities(draw, rank: int, epoch: int, weights=(5, 3, 2, 1), max_n: in
 
 @st.composite
 def interval_case(draw, weights=(5, 3, 2, 1), max_ranks: int = 3, max_n: int = 14, min_n: int = 1,
-                  force_comm: bool = False) -> Dict[str, Any]:
+                  force_comm: bool = False, unrounded: bool = False) -> Dict[str, Any]:
     nranks = draw(st.sampled_from([1, 1, 2, 3][: max(1, max_ranks + 1)]))
     nranks = min(nranks, max_ranks)
     epoch = draw(st.sampled_from(EPOCHS))
@@ -98,8 +98,13 @@ def interval_case(draw, weights=(5, 3, 2, 1), max_ranks: int = 3, max_n: int = 1
     renumber_ranks(draw, ranks)
     from hv.hta_io import prelude_strategy
 
-    return {"ranks": ranks, "fmt": draw(st.sampled_from(["json", "gz"])), "mp": draw(st.integers(0, 5)) == 0,
+    case = {"ranks": ranks, "fmt": draw(st.sampled_from(["json", "gz"])), "mp": draw(st.integers(0, 5)) == 0,
             "prelude": draw(prelude_strategy())}
+    if unrounded and draw(st.sampled_from([False, False, False, True])):
+        from hv.gen.files import scale_to_sub_microsecond
+
+        scale_to_sub_microsecond(case)  # quarter-microsecond stamps, loaded with HTA_DISABLE_NS_ROUNDING=1
+    return case
 
 
 RANK_ID_PATTERNS = [None, None, None, [1, 2, 3, 4], [3, 0, 7, 1], [2, 1, 0, 5]]
